@@ -16,12 +16,15 @@ RULE = ("Hypothesis draws q in (0,1) (0.5 forced in a fraction of cases), a full
         "score == 2*mean pinball_q exactly (MAE at q=0.5) and is monotone in the true pinball loss under perturbations of the model; "
         "(weights) integer weights == repeated rows; (flags) positive => coef_>=0, fit_intercept=False => intercept_==0. "
         "Non-trivial: q outside [0.45,0.55], or weights, or a non-default flag. Distinct = distinct case JSON.")
-ASSUMPTIONS = ["'up to the IRLS tolerance' is made concrete by calibration on the unchanged tree: worst relative excess over the LP optimum "
+ASSUMPTIONS = ["every noise term is at least 1e-3 in magnitude (10 x the default delta=1e-4): the IRLS weights are capped at 1/delta, so data whose whole noise lies "
+               "below delta is outside the regime the algorithm can resolve (calibration: no excess beyond the bounds below for noise amplitude >= 1e-2, "
+               "up to 0.4 x the null-model loss for amplitude <= 1e-4)",
+               "'up to the IRLS tolerance' is made concrete by calibration on the unchanged tree: worst relative excess over the LP optimum "
                "seen in 1500 cases was 0.15 (max_iter=10), 0.034 (50), 0.0013 (300); the check allows 1.5 / 0.35 / 0.02",
                "the weighted score for q != 0.5 is not defined by the statement ('mean'): checked only unweighted, and weighted at q=0.5 against weighted MAE",
                "with positive=True the implementation also constrains the intercept (it is a coefficient of the augmented design); the LP uses the same feasible set, which only makes the bound weaker"]
 EPS = {10: 1.5, 50: 0.35, 300: 0.02}
-TOLERANCES = {"optimality (relative excess over LP optimum) by max_iter": EPS, "score": "1e-12 relative", "weights==duplication": "1e-8 relative",
+TOLERANCES = {"optimality (relative excess over LP optimum) by max_iter": EPS, "score": "1e-12 relative", "weights==duplication": "1e-8 relative (1e-4 with positive=True: scipy nnls is iterative)", "optimality absolute slack": "n * delta (1e-4 per row)",
               "fraction": "(d+3)/n"}
 
 _Q = loader.module("mlmodel.quantile_regression").QuantileLinearRegression
@@ -73,7 +76,8 @@ def check_fit(case):
     f = m.predict(X)
     L = pinball(y, f, q, w)
     Ls = lp_optimum(X, y, q, np.ones(n) if w is None else w, case["fit_intercept"], case["positive"])
-    scale = 1e-9 * (1.0 + float(np.abs(y).sum()))
+    # absolute slack: the IRLS weights are capped at 1/delta, residuals cannot be resolved below delta (default 1e-4) per row
+    scale = 1e-9 * (1.0 + float(np.abs(y).sum())) + n * 1e-4
     eps = EPS[case["max_iter"]]
     require(L <= Ls * (1 + eps) + scale, "fit:not-optimal",
             "pinball loss of the fit %.6g, LP optimum %.6g (ratio %.3f, allowed %.3f) for q=%r" % (L, Ls, L / max(Ls, 1e-300), 1 + eps, q), facts)
@@ -158,7 +162,8 @@ def check_weights(case):
     idx = np.repeat(np.arange(n), wi)
     b = _Q(**kw).fit(X[idx], y[idx])
     pa, pb = a.predict(X), b.predict(X)
-    tol = 1e-8 * (1 + float(np.abs(y).max()))
+    # positive=True goes through scipy's iterative nnls, whose answers for the weighted and the duplicated formulation agree to ~1e-6 only
+    tol = (1e-4 if case["positive"] else 1e-8) * (1 + float(np.abs(y).max()))
     require(bool(np.all(np.abs(pa - pb) <= tol)), "weights:not-duplication",
             "max prediction difference %.3g between integer weights and repeated rows" % float(np.abs(pa - pb).max()), facts)
     return Outcome(["max_iter=%d" % case["max_iter"], "q=0.5" if q == 0.5 else "q!=0.5", "non-uniform" if wi.min() != wi.max() else "uniform"],
@@ -180,7 +185,8 @@ def _cases(draw, tier="quick", weighted=None, for_score=False):
     has_w = draw(st.booleans()) if weighted is None else weighted
     case = dict(X=X, beta=[draw(st.integers(-8, 8)) / 4.0 for _ in range(d)], b=draw(st.integers(-8, 8)) / 4.0,
                 amp=draw(st.sampled_from([0.1, 1.0, 3.0])),
-                noise=[v / 1e6 for v in draw(st.lists(st.integers(-999983, 999983).filter(lambda v: v != 0), min_size=60, max_size=60, unique=True))], q=q,
+                noise=[(1 if v > 0 else -1) * (0.01 + 0.99 * abs(v) / 999983.0)
+                       for v in draw(st.lists(st.integers(-999983, 999983).filter(lambda v: v != 0), min_size=60, max_size=60, unique=True))], q=q,
                 fit_intercept=draw(st.sampled_from([True, True, True, False])), positive=draw(st.sampled_from([False, False, False, True])),
                 max_iter=draw(st.sampled_from([10, 50, 300])),
                 w=[draw(st.integers(1, 4)) for _ in range(60)] if has_w else None)
